@@ -7,5 +7,6 @@ CONSTANTS
     MaxLen = 0
 INVARIANT TypeOK
 INVARIANT ModesAgree
+INVARIANT NoNewKeys
 PROPERTY ObserversNeutral
 PROPERTY SetterFrame
